@@ -140,10 +140,11 @@ struct Cfg {
   uint64_t hang_s{20};
   uint64_t pace_ns{2000};
   uint64_t fwdchaos{0};
+  uint64_t preempt{0};
 };
 Cfg g_cfg;
 
-constexpr int kCpUser = 59;  // client chaos point
+constexpr int kCpUser = 63;  // client chaos point (ids 0-60 belong to the library's hooks)
 
 // merges the per-thread chaos counters when the thread's TLS is destroyed (after ~HeartBeater may have run
 // or before: order of TLS destruction is reverse of construction; this object is constructed first)
@@ -516,6 +517,7 @@ void
 StormBody(int pattern, uint64_t uidbase, int idx, std::atomic<int> *gate, std::atomic<int> *holders)
 {
   const uint64_t uid = uidbase + static_cast<uint64_t>(idx) + 1;
+  if (g_preempt_run.load(kRlx)) PreemptRegister();
   switch (pattern) {
     case 0: tl_probe_start = 0; break;
     case 1: tl_probe_start = static_cast<int64_t>(kN - 1); break;
@@ -543,6 +545,7 @@ StormBody(int pattern, uint64_t uidbase, int idx, std::atomic<int> *gate, std::a
   }
   if (IDManager::GetThreadID() != id) Violate("C05", "id-not-stable", Fmt("storm: %zu then %zu", id, IDManager::GetThreadID()));
   if (id < kN) g_owner[id].store(0, kMo);
+  PreemptUnregister();
 }
 
 int
@@ -606,9 +609,11 @@ ChurnWorker(uint64_t hold_ns)
 {
   const auto uid = g_uid.fetch_add(1) + 1;
   tl_probe_start = -1;
+  if (g_preempt_run.load(kRlx)) PreemptRegister();
   const auto id = IDManager::GetThreadID();
   if (id >= kN) {
     Violate("C05", "id-out-of-range", Fmt("GetThreadID returned %zu with capacity %zu (churn storm)", id, kN));
+    PreemptUnregister();
     return;
   }
   const auto prev = g_owner[id].exchange(uid, kMo);
@@ -635,6 +640,7 @@ ChurnWorker(uint64_t hold_ns)
   if (IDManager::GetThreadID() != id) Violate("C05", "id-not-stable", Fmt("churn storm: %zu then %zu", id, IDManager::GetThreadID()));
   if (prev == 0) g_owner[id].store(0, kMo);
   g_cs_workers.fetch_add(1, kRlx);
+  PreemptUnregister();
 }
 
 int
@@ -1039,8 +1045,9 @@ Run()
   r.Seed(g_cfg.seed * 7777 + kN);
   {
     using namespace ::dbgroup::verif;
-    std::vector<int> cand = {kEpochEntered, kEpochGuardCreated, kEpochForwardBegin, kEpochForwardCollected, kEpochForwardRetired,
-                             kEpochForwardEnd, kEpochBindHeartbeat, kIdExitBegin, kIdExitMiddle, kIdExitEnd, kIdProbe, kCpUser};
+    std::vector<int> cand = {kEpochEntered,    kEpochGuardCreated,  kEpochForwardBegin, kEpochForwardCollected, kEpochForwardRetired,
+                             kEpochForwardEnd, kEpochBindHeartbeat, kEpochScanSlot,     kIdExitBegin,           kIdExitMiddle,
+                             kIdExitEnd,       kIdProbe,            kCpUser};
     MakePlan(r, cand, 2);
     g_plan.prob[kIdExitEnd] = 30000;
     g_plan.prob[kIdExitMiddle] = 30000;
@@ -1048,6 +1055,9 @@ Run()
     g_plan.prob[kEpochLookupStep] = 0;
     if (g_cfg.fwdchaos == 0) {
       for (int p : {kEpochForwardBegin, kEpochForwardCollected, kEpochForwardRetired, kEpochForwardEnd}) g_plan.prob[p] = 30;
+      g_plan.prob[kEpochScanSlot] = 60;
+    } else {
+      g_plan.prob[kEpochScanSlot] = std::max<uint32_t>(g_plan.prob[kEpochScanSlot], 4000);
     }
     if (g_cfg.sub == "B") {
       g_plan.prob[kEpochEnterGap] = 5000;
@@ -1241,6 +1251,7 @@ Run()
   res.Add("quiescent_checks", quiescent_checks);
   res.Add("stale_epoch_publications", g_stale_publications.load());
   res.Add("lookups_stalled_across_node_retirement", g_long_lookup_stalls.load());
+  PreempterStop();
   res.counters["max_final_epoch"] = prev;
   res.signatures.push_back(Fmt("epoch:N=%zu:sub=%s", kN, g_cfg.sub.c_str()));
   if (g_pairs_reused_id.load()) res.signatures.push_back(Fmt("epoch:N=%zu:guard-on-reused-id-checked", kN));
@@ -1254,6 +1265,80 @@ Run()
   ChaosThreadEnd();
   g_em->~EpochManager();
   g_em = nullptr;
+  EmitResult(res, "ok");
+  return 0;
+}
+
+// mode=epochstart: many fresh managers; N-1 workers make their FIRST CreateEpochGuard on the manager at the same
+// instant (spin barrier), hold the guard, and the coordinator checks C04 over a few forwards.
+int
+RunStart()
+{
+  g_point_cb = nullptr;
+  Result res;
+  Rng r;
+  r.Seed(g_cfg.seed * 31 + kN);
+  const int workers = static_cast<int>(std::min<size_t>(kN - 1, 15));
+  const uint64_t rounds = workers == 0 ? 0 : 300 * g_cfg.scale;
+  uint64_t pairs = 0, done = 0;
+  for (uint64_t round = 0; round < rounds; ++round) {
+    auto *em = new (g_em_storage) EpochManager{};
+    g_em = em;
+    (void)IDManager::GetThreadID();
+    std::atomic<int> gate{0}, created{0}, release{0};
+    std::vector<std::thread> ths;
+    std::vector<uint64_t> epochs(workers, 0);
+    for (int w = 0; w < workers; ++w) {
+      ths.emplace_back([&, w] {
+        if (g_preempt_run.load(kRlx)) PreemptRegister();
+        while (gate.load(std::memory_order_acquire) == 0) {
+        }
+        {
+          EpochGuard g = em->CreateEpochGuard();
+          epochs[w] = g.GetProtectedEpoch();
+          created.fetch_add(1, kMo);
+          while (release.load(kMo) == 0) sched_yield();
+        }
+        PreemptUnregister();
+      });
+    }
+    gate.store(1, std::memory_order_release);
+    while (created.load(kMo) < workers) sched_yield();
+    uint64_t cur = em->GetCurrentEpoch();
+    for (int f = 0; f < 3; ++f) {
+      em->ForwardGlobalEpoch();
+      ++cur;
+      std::vector<size_t> list;
+      {
+        auto &&[g, l] = em->GetProtectedEpochs();
+        list = l;
+      }
+      const auto m = em->GetMinEpoch();
+      for (int w = 0; w < workers; ++w) {
+        ++pairs;
+        if (std::find(list.begin(), list.end(), epochs[w]) == list.end() || m > epochs[w]) {
+          Violate("C04", "live-guard-epoch-not-protected:first-use-of-a-fresh-manager-by-simultaneous-threads",
+                  Fmt("capacity=%zu: %d threads made their first CreateEpochGuard on a fresh manager at the same instant; worker %d's guard "
+                      "(epoch %" PRIu64 ") is alive, yet the list published for epoch %" PRIu64 " is %s and GetMinEpoch()=%zu",
+                      kN, workers, w, epochs[w], cur, ListStr(list).c_str(), m));
+          f = 3;
+          break;
+        }
+      }
+    }
+    release.store(1, kMo);
+    for (auto &t : ths) t.join();
+    em->~EpochManager();
+    g_em = nullptr;
+    ++done;
+    if (g_log.n_viol.load() != 0) break;
+  }
+  PreempterStop();
+  res.Add("fresh_manager_rounds", done);
+  res.Add("guard_forward_pairs_checked", pairs);
+  res.counters["evaluations"] = pairs + done;
+  res.signatures.push_back(Fmt("epochstart:N=%zu", kN));
+  res.samples.push_back(Fmt("{\"mode\":\"epochstart\",\"capacity\":%zu,\"rounds\":%" PRIu64 ",\"workers\":%d}", kN, done, workers));
   EmitResult(res, "ok");
   return 0;
 }
@@ -1659,10 +1744,13 @@ main(int argc, char **argv)
   g_cfg.hang_s = a.U("hang_s", 20);
   g_cfg.pace_ns = a.U("pace", 2000);
   g_cfg.fwdchaos = a.U("fwdchaos", 0);
+  g_cfg.preempt = a.U("preempt", 0);
+  if (g_cfg.preempt != 0) PreempterStart(g_cfg.seed, 30, 400, 20, 400);
   if (g_cfg.mode == "id") return idm::Run();
   if (g_cfg.mode == "storm") return idm::RunStorm();
   if (g_cfg.mode == "churnstorm") return idm::RunChurnStorm();
   if (g_cfg.mode == "epoch") return ep::Run();
+  if (g_cfg.mode == "epochstart") return ep::RunStart();
   if (g_cfg.mode == "model") return md::Run();
   if (g_cfg.mode == "long") return md::RunLong();
   fprintf(stderr, "unknown mode\n");
